@@ -1,24 +1,25 @@
 #!/usr/bin/env python3
-"""store_round.py <property id> <round dir> <m1 outcome> <m2 outcome> <m3 outcome>
+"""ROUND=<n> store_round.py <property id> <round dir> <m1 outcome> <m2 outcome> <m3 outcome>
 copies each confirmed candidate of a seeding round to seeded/<id>-r2-m<k>/ with a meta.json; outcome = 'detected' or 'missed:<how the check was strengthened>'"""
 import json, os, shutil, sys
+ROUND = int(os.environ.get("ROUND", "2"))
 pid, d = sys.argv[1], sys.argv[2]
 for k, outcome in enumerate(sys.argv[3:], start=1):
     src = f"{d}/m{k}"
     if not os.path.exists(f"{src}/patch.diff"):
         continue
-    dst = f"/verif/seeded/{pid}-r2-m{k}"
+    dst = f"/verif/seeded/{pid}-r{ROUND}-m{k}"
     os.makedirs(dst, exist_ok=True)
     for f in ("patch.diff", "demo.py", "notes.md"):
         if os.path.exists(f"{src}/{f}"):
             shutil.copy(f"{src}/{f}", dst)
     notes = open(f"{src}/notes.md").read() if os.path.exists(f"{src}/notes.md") else ""
     missed = outcome.startswith("missed")
-    meta = dict(property=pid, round=2, source="independent sub-agent given only the property text and a scratch worktree (three alternatives per property)",
+    meta = dict(property=pid, round=ROUND, source="independent sub-agent given only the property text and a scratch worktree (three alternatives per property)",
                 needs_to_manifest=notes.strip().split("\n\n")[0][:900],
                 confirmed=dict(tests="harness/verify_seed.sh: unedited suite passes with the patch in a scratch worktree (only the known-flaky test_penrose_tiling varies)",
                                demo="demo.py exits 1 with the patch, 0 on the clean tree"),
-                ran=f"harness/try_seed.sh seeded/{pid}-r2-m{k} {pid}",
+                ran=f"harness/try_seed.sh seeded/{pid}-r{ROUND}-m{k} {pid}",
                 outcome=("first run: MISSED (exit 0). Strengthened: " + outcome.split(":", 1)[1] + "; now VIOLATION with failing input") if missed else "VIOLATION with failing input (quick tier)",
                 detected=True, detected_by=f"{pid} quick", check_was="missed, then strengthened" if missed else "detected")
     json.dump(meta, open(f"{dst}/meta.json", "w"), indent=1)
